@@ -605,8 +605,12 @@ def render_skool(d, w, tg, code):
     mw = code['main']
     o = w['opt']
     lines = []
-    remote_lines = ['@remote=%s:%s' % (r['code'], ','.join(('$%04X' % a if code['hex'] and d.chance(50) else str(a)) for a in r['addrs']))
-                    for r in code['remote']]
+    remote_lines = []
+    for r in code['remote']:
+        if len(r['addrs']) > 1 and d.chance(25):
+            # the same remote entry declared twice, the later directive naming further entry points
+            remote_lines.append('@remote=%s:%s' % (r['code'], ','.join(str(a) for a in r['addrs'][:-1])))
+        remote_lines.append('@remote=%s:%s' % (r['code'], ','.join(('$%04X' % a if code['hex'] and d.chance(50) else str(a)) for a in r['addrs'])))
     # operand target pools
     own_entries = [e['addr'] for e in code['entries'] if e['ctl'] != 'i']
     own_c = [e['addr'] for e in code['entries'] if e['ctl'] == 'c']
